@@ -67,6 +67,7 @@ type progSpec struct {
 	OnError  bool          `json:"on_error,omitempty"`
 	Retry    bool          `json:"retry,omitempty"`
 	Max      int           `json:"max,omitempty"`
+	RetryLevel string      `json:"retry_level,omitempty"` // "" on the request (SetRetryCount, AddRetry...) | client (SetCommonRetryCount, AddCommonRetry...)
 	NConds   int           `json:"n_conds,omitempty"` // number of AddRetryCondition
 	NHooks   int           `json:"n_hooks,omitempty"` // number of AddRetryHook
 	HookMode string        `json:"hook_mode,omitempty"` // what OnError does: "" (only logs) | set | clear | panic
